@@ -428,6 +428,28 @@ func classCases() []classCase {
 			}
 		}
 	}
+	// realistic sizes: programs / bytecode longer than the generic CBOR decoder's default element limit (131072),
+	// holding short-encoded felts (zero, small constants) next to full-width ones
+	for _, ln := range []int{131073, 200001} {
+		big := make([]felt.Felt, ln)
+		for i := range big {
+			switch i % 5 {
+			case 0:
+				big[i] = FV(0)
+			case 1:
+				big[i] = FV(uint64(i))
+			default:
+				big[i] = *new(felt.Felt).Mul(F(0x480680017fff8000), F(uint64(i)+0xFFFFFFFFFF))
+			}
+		}
+		d := &core.SierraClass{Abi: s1.Abi, AbiHash: F(0xAB1), ProgramHash: F(0x9406), SemanticVersion: "0.1.0",
+			EntryPoints: core.SierraEntryPointsByType{Constructor: []core.SierraEntryPoint{}, External: sep, L1Handler: []core.SierraEntryPoint{}},
+			Program:     big,
+			Compiled: &core.CasmClass{Bytecode: big, PythonicHints: json.RawMessage(`[]`), CompilerVersion: "2.6.0", Hints: json.RawMessage(`[]`), Prime: prime,
+				External: cep, L1Handler: []core.CasmEntryPoint{}, Constructor: []core.CasmEntryPoint{}}}
+		n++
+		out = append(out, classCase{fmt.Sprintf("sierra with %d program felts", ln), FV(0xC0DE0000 + n), &core.DeclaredClassDefinition{At: n, Class: d}})
+	}
 	// the shared synthetic classes used on valid chains
 	for i := 0; i < 2; i++ {
 		c, h := chain.Cairo0(i)
